@@ -584,50 +584,8 @@ pub fn c07(ctx: &mut Ctx) {
                 }
             };
             for mode in ["truncated", "untruncated", "fitted", "fitted-but-last", "fitted-but-first"] {
-                let untruncated = mode == "untruncated";
-                let full_len = (coeffs.len() + (1 << shape.sum_steps()) - 1) >> shape.sum_steps();
-                let last_len = if untruncated { Some(full_len.max((1 << shape.log_last_bound) + 1)) } else { None };
-                let mut inst = build_instance(&mut rng, shape.clone(), coeffs.clone(), last_len, queries.clone());
                 let kind = format!("high-degree-{mode}:{tail_kind}");
-                // final-layer query points and the value of the fully folded function there
-                let n_inner = shape.steps.len() - 1;
-                let full = inst.prover.coeffs[n_inner].clone();
-                let mut pts: Vec<u64> = inst.q_idx.clone();
-                let mut log_size = shape.log_input;
-                for s in &shape.steps[1..] {
-                    pts = pts.iter().map(|q| q >> s).collect();
-                    pts.dedup();
-                    log_size -= s;
-                }
-                let w = models::subgroup_generator(log_size);
-                let ys: Vec<Felt> = pts.iter().map(|q| w.pow(models::bitrev(*q, log_size) as u128)).collect();
-                if mode.starts_with("fitted") {
-                    // adaptive last layer: interpolate the folded function at as many final query
-                    // points as a polynomial below the bound can be made to fit (the first ones; or
-                    // all but the last / all but the first when the bound allows it)
-                    let cap = 1usize << shape.log_last_bound;
-                    let sel: Vec<Felt> = match mode {
-                        "fitted" => ys.iter().take(cap).cloned().collect(),
-                        "fitted-but-last" if ys.len() >= 2 && cap >= ys.len() - 1 => ys[..ys.len() - 1].to_vec(),
-                        "fitted-but-first" if ys.len() >= 2 && cap >= ys.len() - 1 => ys[1..].to_vec(),
-                        _ => continue,
-                    };
-                    let k = sel.len();
-                    if k > 32 || k == 0 {
-                        continue;
-                    }
-                    let xs = &sel[..];
-                    let vals: Vec<Felt> = xs.iter().map(|y| models::eval_poly(&full, *y)).collect();
-                    let mut fitted = models::lagrange_interpolate(xs, &vals);
-                    fitted.resize(1usize << shape.log_last_bound, Felt::ZERO);
-                    inst.call.last_layer = fitted;
-                }
-                // exact oracle: undetectable iff the sent last layer agrees with the fully folded
-                // function at every final query point
-                let mut detectable = true;
-                if !untruncated {
-                    detectable = ys.iter().any(|y| models::eval_poly(&full, *y) != models::eval_poly(&inst.call.last_layer, *y));
-                }
+                let Some((inst, detectable)) = high_degree_instance(&mut rng, &shape, &coeffs, &queries, mode) else { continue };
                 let o = inst.call.run_verify();
                 ctx.stats.evaluations += 1;
                 ctx.stats.fired(&kind);
@@ -641,12 +599,81 @@ pub fn c07(ctx: &mut Ctx) {
                 }
                 if o.is_accept() {
                     let class = format!("C07|fault-accepted|{}", kind.split(':').next().unwrap());
-                    let rep = mk_replay(&variant, &inst.call, &o, &kind);
-                    ctx.violation(&class, &format!("{kind} accepted; shape {sc} queries {queries:?} degree {}", coeffs.len() - 1), rep);
+                    if ctx.seen_class(&class) {
+                        ctx.violation(&class, "", Value::Null);
+                        continue;
+                    }
+                    // shape shrinking: smallest ladder shape on which the same strategy is accepted
+                    let mut reported = false;
+                    'shrink: for (steps, last, blow) in [(&[0u32, 1][..], 0u32, 1u32), (&[0, 1][..], 1, 1), (&[0, 2][..], 0, 1), (&[0, 1, 1][..], 0, 1), (&[0, 2, 1][..], 1, 1), (&[0, 3][..], 1, 2)] {
+                        let sum: u32 = steps.iter().sum();
+                        let sh = FriShape { log_input: sum + last + blow, steps: steps.to_vec(), log_last_bound: last, n_friendly: shape.n_friendly.min((sum + last + blow) as u64 + 2) };
+                        let n = 1u64 << sh.log_input;
+                        let b2 = 1usize << sh.log_degree_bound();
+                        for qs in [vec![0u64, n - 1], vec![0, 1, n - 1], vec![1, n / 2, n - 1], vec![0]] {
+                            let mut qs = qs.clone();
+                            qs.sort();
+                            qs.dedup();
+                            let mut r2 = Rng::new(ctx.seed ^ k ^ (sh.log_input as u64) << 3 ^ qs.len() as u64);
+                            let mut c2 = random_poly(&mut r2, b2);
+                            c2.push(r2.felt_nonzero());
+                            if let Some((i2, det2)) = high_degree_instance(&mut r2, &sh, &c2, &qs, mode) {
+                                if det2 && i2.call.run_verify().is_accept() {
+                                    let o2 = i2.call.run_verify();
+                                    let rep = mk_replay(&variant, &i2.call, &o2, &kind);
+                                    ctx.violation(&class, &format!("{kind} accepted; shape {} queries {qs:?} degree {} (minimised from shape {sc}, {} queries)", shape_class(&sh, qs.len()), c2.len() - 1, queries.len()), rep);
+                                    reported = true;
+                                    break 'shrink;
+                                }
+                            }
+                        }
+                    }
+                    if !reported {
+                        let rep = mk_replay(&variant, &inst.call, &o, &kind);
+                        ctx.violation(&class, &format!("{kind} accepted; shape {sc} queries {queries:?} degree {}", coeffs.len() - 1), rep);
+                    }
                 }
             }
         }
     }
+}
+
+/// A Byzantine FRI instance for a function of degree >= bound, honestly folded, with the last
+/// layer sent in `mode`. Returns the instance and whether the queries can detect it (exact).
+fn high_degree_instance(rng: &mut Rng, shape: &FriShape, coeffs: &[Felt], queries: &[u64], mode: &str) -> Option<(Instance, bool)> {
+    let untruncated = mode == "untruncated";
+    let full_len = (coeffs.len() + (1 << shape.sum_steps()) - 1) >> shape.sum_steps();
+    let last_len = if untruncated { Some(full_len.max((1 << shape.log_last_bound) + 1)) } else { None };
+    let mut inst = build_instance(rng, shape.clone(), coeffs.to_vec(), last_len, queries.to_vec());
+    let n_inner = shape.steps.len() - 1;
+    let full = inst.prover.coeffs[n_inner].clone();
+    let mut pts: Vec<u64> = inst.q_idx.clone();
+    let mut log_size = shape.log_input;
+    for s in &shape.steps[1..] {
+        pts = pts.iter().map(|q| q >> s).collect();
+        pts.dedup();
+        log_size -= s;
+    }
+    let w = models::subgroup_generator(log_size);
+    let ys: Vec<Felt> = pts.iter().map(|q| w.pow(models::bitrev(*q, log_size) as u128)).collect();
+    if mode.starts_with("fitted") {
+        let cap = 1usize << shape.log_last_bound;
+        let sel: Vec<Felt> = match mode {
+            "fitted" => ys.iter().take(cap).cloned().collect(),
+            "fitted-but-last" if ys.len() >= 2 && cap >= ys.len() - 1 => ys[..ys.len() - 1].to_vec(),
+            "fitted-but-first" if ys.len() >= 2 && cap >= ys.len() - 1 => ys[1..].to_vec(),
+            _ => return None,
+        };
+        if sel.len() > 32 || sel.is_empty() {
+            return None;
+        }
+        let vals: Vec<Felt> = sel.iter().map(|y| models::eval_poly(&full, *y)).collect();
+        let mut fitted = models::lagrange_interpolate(&sel, &vals);
+        fitted.resize(1usize << shape.log_last_bound, Felt::ZERO);
+        inst.call.last_layer = fitted;
+    }
+    let detectable = untruncated || ys.iter().any(|y| models::eval_poly(&full, *y) != models::eval_poly(&inst.call.last_layer, *y));
+    Some((inst, detectable))
 }
 
 pub fn replay(rep: &Value) -> Result<(bool, String), String> {
